@@ -26,12 +26,17 @@ import (
 //
 //	seq <op> <op> ...        one sequential history against a fresh database; one observation per op
 //	    tx:<w>/<w>..:c|r     Db.Update with writes (p<k>.<v> put, d<k> delete), commit or return an error
+//	                         (values: 0 "", 1 "v1", 2 int64 7, 3 bool true, 4 a 300 KB blob, 5 a 700 KB blob)
 //	    snap:<k>             Snapshot(path_k)                  -> snapped:<id>:<dump at that time>
 //	    snapt:<k>            View{ SnapshotInTx(tx, path_k) }  -> same
 //	    snapu:<k>:<w>/..     Update{ writes; SnapshotInTx }    -> same (copy = last committed state)
 //	    snapf                Snapshot into a missing directory -> err
 //	    stream:<k>           StreamToWriter(file_k)            -> streamed:<dump>
-//	    rest:<k> restr:<k>   RestoreSnapshot(bytes) / RestoreFromReader(file) -> restored:<fired>:<dump after>
+//	    rest:<k> restr:<k>   RestoreSnapshot(bytes) / RestoreFromReader(*os.File) -> restored:<fired>:<dump after>
+//	    restr:<k>:<pre>:<chunk>:<d|s>   RestoreFromReader(reader with a behaviour): the first reads return at most
+//	                         the sizes in <pre> (a+b+.., 0 = a read returning (0, nil); `-` none), later reads at most
+//	                         <chunk> bytes (`w` = as much as the caller's buffer takes); the last bytes come together
+//	                         with io.EOF (d, like iotest.DataErrReader / flate) or EOF on its own call (s)
 //	    gsid                 GetSnapshotId                     -> sid:<id|nil>
 //	    gtl:<d|i|f>:<1|0>    GetTimelineId(mode, idF ok/failing) -> tl:<id|->:<idF calls> / tlerr:<calls>
 //	    listen               AddRestoreListener                -> ok
@@ -64,10 +69,65 @@ func c17Put(tx *bbolt.Tx, k, v int) error {
 		b.SetString(c17Key(k), "v1", nil)
 	case 2:
 		b.SetInt64(c17Key(k), 7, nil)
-	default:
+	case 3:
 		b.SetBool(c17Key(k), true, nil)
+	case 4:
+		b.SetString(c17Key(k), c17Blob(300*1024), nil)
+	default:
+		b.SetString(c17Key(k), c17Blob(700*1024), nil)
 	}
 	return b.GetError()
+}
+
+var c17Blobs = map[int]string{}
+
+// deterministic incompressible-looking filler, so that snapshot files straddle 1 MB
+func c17Blob(n int) string {
+	if s, ok := c17Blobs[n]; ok {
+		return s
+	}
+	r := newRng(uint64(n))
+	b := make([]byte, n)
+	for i := range b {
+		b[i] = byte(r.next())
+	}
+	c17Blobs[n] = string(b)
+	return c17Blobs[n]
+}
+
+// c17Reader is an io.Reader (and nothing else: no WriterTo) with a chosen legal behaviour
+type c17Reader struct {
+	data    []byte
+	pre     []int
+	chunk   int // 0 = unlimited
+	eofData bool
+	done    bool
+}
+
+func (r *c17Reader) Read(p []byte) (int, error) {
+	if r.done || len(r.data) == 0 { // nothing (left) to deliver: EOF on a call of its own
+		r.done = true
+		return 0, io.EOF
+	}
+	if len(p) == 0 {
+		return 0, nil
+	}
+	limit := len(p)
+	if len(r.pre) > 0 {
+		if r.pre[0] < limit {
+			limit = r.pre[0]
+		}
+		r.pre = r.pre[1:]
+	} else if r.chunk > 0 && r.chunk < limit {
+		limit = r.chunk
+	}
+	n := copy(p[:limit], r.data)
+	r.data = r.data[n:]
+	if len(r.data) == 0 && r.eofData {
+		r.done = true
+		return n, io.EOF // the last bytes together with io.EOF, as the io.Reader contract allows
+	}
+	return n, nil
 }
 
 func c17Del(tx *bbolt.Tx, k int) error {
@@ -87,7 +147,7 @@ var c17ValCodes = func() map[string]int {
 	defer db.Close()
 	res := map[string]int{}
 	_ = db.Update(func(tx *bbolt.Tx) error {
-		for v := 0; v < 4; v++ {
+		for v := 0; v < 6; v++ {
 			if err := c17Put(tx, 0, v); err != nil {
 				panic(err)
 			}
@@ -381,6 +441,22 @@ func (e *c17Env) op(tok string) string {
 				return "nofile"
 			}
 			e.db.RestoreSnapshot(data)
+		} else if len(f) == 5 {
+			data, err := os.ReadFile(e.slot(f[1]))
+			if err != nil {
+				return "nofile"
+			}
+			rd := &c17Reader{data: data, eofData: f[4] == "d"}
+			if f[2] != "-" {
+				for _, p := range strings.Split(f[2], "+") {
+					n, _ := strconv.Atoi(p)
+					rd.pre = append(rd.pre, n)
+				}
+			}
+			if f[3] != "w" {
+				rd.chunk, _ = strconv.Atoi(f[3])
+			}
+			e.db.RestoreFromReader(rd)
 		} else {
 			file, err := os.Open(e.slot(f[1]))
 			if err != nil {
@@ -710,6 +786,16 @@ func c17Stage(which string) string {
 
 // ------------------------------------------------------------------ generator
 
+var c17BigChance = 16 // 1 in c17BigChance puts writes a 300 KB / 700 KB blob
+
+var c17Chunks = []string{"1", "2", "7", "512", "4096", "32767", "32768", "32769", "65536", "1048575", "1048576", "1048577", "w", "w"}
+var c17Pres = []string{"-", "-", "-", "0", "1", "0+1+0+3", "4096+0", "5+0+0+32768"}
+
+// a reader behaviour for RestoreFromReader
+func c17GenReader(r *rng) string {
+	return pick(r, c17Pres) + ":" + pick(r, c17Chunks) + ":" + pick(r, []string{"d", "d", "s"})
+}
+
 func c17GenWrites(r *rng) string {
 	n := r.intn(4)
 	var ws []string
@@ -717,6 +803,8 @@ func c17GenWrites(r *rng) string {
 		k := r.intn(c17Keys)
 		if r.chance(1, 4) {
 			ws = append(ws, fmt.Sprintf("d%d", k))
+		} else if r.chance(1, c17BigChance) {
+			ws = append(ws, fmt.Sprintf("p%d.%d", k, 4+r.intn(2)))
 		} else {
 			ws = append(ws, fmt.Sprintf("p%d.%d", k, r.intn(4)))
 		}
@@ -746,8 +834,10 @@ func c17GenOp(r *rng, slots int) string {
 		return fmt.Sprintf("stream:%d", slot)
 	case x < 66:
 		return fmt.Sprintf("rest:%d", slot)
-	case x < 72:
+	case x < 68:
 		return fmt.Sprintf("restr:%d", slot)
+	case x < 72:
+		return fmt.Sprintf("restr:%d:%s", slot, c17GenReader(r))
 	case x < 80:
 		return "gsid"
 	case x < 92:
@@ -767,7 +857,7 @@ func c17Gen(tier string, seed uint64, out *bufio.Writer) {
 	r := newRng(seed)
 	// fixed histories: the property's own shape, once per route and mode
 	for _, snap := range []string{"snap:0", "snapt:0", "stream:0"} {
-		for _, rest := range []string{"rest:0", "restr:0"} {
+		for _, rest := range []string{"rest:0", "restr:0", "restr:0:-:w:d", "restr:0:0+1+0+3:4096:s", "restr:0:-:1:d"} {
 			for _, mode := range []string{"d", "i", "f"} {
 				fmt.Fprintf(out, "seq listen tx:p0.1/p4.2:c gtl:i:1 %s tx:p0.3/d4/p2.0:c listen gtl:f:1 %s gsid gtl:%s:1 gtl:d:1 gtl:i:1 dump %s gsid gtl:%s:1 gtl:i:0 dump\n",
 					snap, rest, mode, rest, mode)
@@ -779,6 +869,26 @@ func c17Gen(tier string, seed uint64, out *bufio.Writer) {
 	if tier == "thorough" {
 		nseq, maxLen = 2000, 28
 		nconc = 40
+		c17BigChance = 5 // snapshot files from 32 KB to several MB: straddle the 32 KB and 1 MB copy buffers
+	}
+	// every reader behaviour against a small and a > 1 MB snapshot
+	for _, big := range []string{"", "tx:p1.5/p3.4/p5.5:c "} {
+		if big != "" && tier != "thorough" {
+			// quick: only the behaviours that matter most for a large file
+			for _, rd := range []string{"-:w:d", "-:1048576:d", "-:1048577:s", "0+1:32768:d"} {
+				fmt.Fprintf(out, "seq tx:p0.1/p4.2:c %ssnap:0 tx:p0.3/d4:c restr:0:%s gsid dump\n", big, rd)
+			}
+			continue
+		}
+		for _, ch := range c17Chunks[:13] {
+			for _, e := range []string{"d", "s"} {
+				pre := "-"
+				if ch == "7" || ch == "32768" {
+					pre = "0+1+0+3"
+				}
+				fmt.Fprintf(out, "seq tx:p0.1/p4.2:c %ssnap:0 tx:p0.3/d4:c restr:0:%s:%s:%s gsid dump\n", big, pre, ch, e)
+			}
+		}
 	}
 	for i := 0; i < nseq; i++ {
 		n := 4 + r.intn(maxLen)
@@ -790,7 +900,11 @@ func c17Gen(tier string, seed uint64, out *bufio.Writer) {
 		// make sure the property's shape occurs: a snapshot early, a restore late
 		if r.chance(3, 4) {
 			ops[r.intn(1+len(ops)/3)] = fmt.Sprintf("%s:%d", pick(r, []string{"snap", "snapt", "snap", "stream"}), 0)
-			ops = append(ops, fmt.Sprintf("%s:0", pick(r, []string{"rest", "restr"})), "gsid",
+			restore := fmt.Sprintf("%s:0", pick(r, []string{"rest", "restr"}))
+			if r.chance(1, 2) {
+				restore = "restr:0:" + c17GenReader(r)
+			}
+			ops = append(ops, restore, "gsid",
 				"gtl:"+pick(r, []string{"d", "i", "f"})+":1", "gtl:"+pick(r, []string{"d", "i"})+":1", "dump")
 		}
 		fmt.Fprintf(out, "seq %s\n", strings.Join(ops, " "))
